@@ -430,8 +430,8 @@ fn check_typeconfusion(acc: &mut Acc, e: &Ent, prefix: &[u8], delta: &[u8], unsa
 pub fn c16(thorough: bool, seed: u64) -> CheckOutput {
     let mut acc = Acc::new();
     let mut rng = Rng::new(seed ^ 0xC16);
-    let ents = entropy_grid(&mut rng, if thorough { 600 } else { 60 });
-    let ints = int_grid(&mut rng, if thorough { 3000 } else { 300 });
+    let ents = entropy_grid(&mut rng, if thorough { 3000 } else { 60 });
+    let ints = int_grid(&mut rng, if thorough { 8000 } else { 300 });
     let strings = string_grid(&mut rng, if thorough { 600 } else { 80 });
     let bytess = bytes_grid(&mut rng, if thorough { 600 } else { 80 });
     let memos: Vec<usize> = vec![0, 1, 2, 255, 256, 257, 999, 1000, usize::MAX - 1, usize::MAX];
@@ -657,7 +657,7 @@ pub fn c16(thorough: bool, seed: u64) -> CheckOutput {
     acc.merge(memo_acc);
 
     // TypeConfusion on snapshots built from real emissions of every opcode + synthetic edge cases
-    let n_gen = if thorough { 3000 } else { 400 };
+    let n_gen = if thorough { 30_000 } else { 400 };
     let tc_acc = par_run(
         n_gen,
         Acc::new,
@@ -761,8 +761,10 @@ pub fn c18(thorough: bool, seed: u64) -> CheckOutput {
         }
     }
     let exhaustive_short = ents.len();
+    // thorough: ALL byte strings of length 3 as well (16.7M), on a reduced argument grid
+    let three_byte_states: u64 = if thorough { 1 << 24 } else { 0 };
     let mut rng = Rng::new(seed ^ 0xC18);
-    let n_rand = if thorough { 100_000 } else { 8_000 };
+    let n_rand = if thorough { 400_000 } else { 8_000 };
     for _ in 0..n_rand {
         let n = 3 + rng.below(14) as usize;
         ents.push(Ent::Bytes(rng.bytes(n)));
@@ -909,13 +911,84 @@ pub fn c18(thorough: bool, seed: u64) -> CheckOutput {
         },
         |a, b| a.merge(b),
     );
+    if three_byte_states > 0 {
+        let small: [usize; 9] = [0, 1, 2, 3, 255, 256, 257, 65536, usize::MAX];
+        let a3 = par_run(
+            (three_byte_states / 256) as usize,
+            Acc::new,
+            |hi, acc| {
+                for lo in 0..256usize {
+                    let bytes = vec![(hi >> 8) as u8, (hi & 0xff) as u8, lo as u8];
+                    let e = Ent::Bytes(bytes);
+                    let r = with_source(&e, |s| {
+                        let mut bad: Option<String> = None;
+                        for &n in &small {
+                            let mut u = arbitrary::Unstructured::new(match &e {
+                                Ent::Bytes(b) => b,
+                                _ => unreachable!(),
+                            });
+                            let mut src = GenerationSource::Arbitrary(&mut u);
+                            let r = src.choose_index(n);
+                            if (n == 0 && r != 0) || (n > 0 && r >= n) {
+                                bad = Some(format!("choose_index({}) -> {}", n, r));
+                            }
+                        }
+                        for &(a, b) in &[(0usize, 1usize), (1, 10), (3, 9), (5, 5), (9, 3), (0, 256), (255, 257), (1, usize::MAX), (usize::MAX - 1, usize::MAX)] {
+                            let mut u = arbitrary::Unstructured::new(match &e {
+                                Ent::Bytes(b) => b,
+                                _ => unreachable!(),
+                            });
+                            let mut src = GenerationSource::Arbitrary(&mut u);
+                            let r = src.gen_range(a, b);
+                            let ok = if a >= b { r == a } else { r >= a && r < b };
+                            if !ok {
+                                bad = Some(format!("gen_range({},{}) -> {}", a, b, r));
+                            }
+                        }
+                        let c = s.gen_ascii_char();
+                        if !(0x20..=0x7E).contains(&(c as u32)) {
+                            bad = Some(format!("gen_ascii_char -> {:?}", c));
+                        }
+                        let c2 = s.gen_ascii_char();
+                        let c3 = s.gen_ascii_char();
+                        let c4 = s.gen_ascii_char();
+                        for c in [c2, c3, c4] {
+                            if !(0x20..=0x7E).contains(&(c as u32)) {
+                                bad = Some(format!("gen_ascii_char -> {:?}", c));
+                            }
+                        }
+                        bad
+                    });
+                    acc.evaluations += 22;
+                    match r {
+                        Ok(None) => {}
+                        Ok(Some(m)) => acc.violate(violation(
+                            "C18",
+                            format!("C18:{}:bytes", m.split('(').next().unwrap_or("draw")),
+                            format!("{} on a 3-byte entropy state: out of range", m),
+                            json!({"entropy": e.to_json(), "call": m}),
+                        )),
+                        Err(p) => acc.violate(violation(
+                            "C18",
+                            "C18:panic:three_byte:bytes".into(),
+                            format!("entropy adapter panicked on a 3-byte state: {}", p),
+                            json!({"entropy": e.to_json()}),
+                        )),
+                    }
+                    acc.count("three_byte_string_states", 1);
+                }
+            },
+            |a, b| a.merge(b),
+        );
+        acc.merge(a3);
+    }
     acc.sample(json!({"entropy": {"bytes_hex": "ff"}, "call": "choose_index(256)", "checked": "< 256"}));
     acc.sample(json!({"entropy": {"bytes_hex": ""}, "call": "gen_range(3,9)", "checked": "== 3 (fallback)"}));
     acc.sample(json!({"entropy": {"prng_seed": 42}, "call": "gen_range(usize::MAX-1, usize::MAX)", "checked": "== usize::MAX-1"}));
     CheckOutput {
         acc,
         rule: "cases = every EntropySource method on harness-built sources: n,a,b over an 18-point grid incl. 0,1,255,256,257,65536,2^32+-1,usize::MAX (all pairs), lengths 0..16,255,256,65536, x entropy states = ALL fuzzer byte strings of length <= 2 (65 793, exhaustive) + random strings of length 3..16 + PRNG seeds; evaluations = calls; distinct non-trivial = distinct entropy states (each runs the whole argument grid)".into(),
-        extra: json!({"grid": grid.len(), "exhaustive_byte_strings_len_le_2": exhaustive_short, "entropy_states": ents.len()}),
+        extra: json!({"grid": grid.len(), "exhaustive_byte_strings_len_le_2": exhaustive_short, "exhaustive_byte_strings_len_3": three_byte_states, "entropy_states": ents.len()}),
         assumptions: vec!["documented fallbacks: 0 / false / min / zeros / 'a' (first table entry)".into()],
         exhaustive: None,
     }
